@@ -195,6 +195,14 @@ func startTagTransparentSSA(r *Run, rule string, pm *parserModel) {
 			}
 		}
 		if at < 0 {
+			// '<%' is the only token the statement parser steps over to parse what follows in its place: a path that
+			// starts the dispatch again without having found '<%' has made another token transparent (a comment tag that
+			// swallows its '%>' takes the closing brace of the block it ends with it)
+			for _, ev := range p.events {
+				if c, isCall := ev.(*ssa.Call); isCall && c.Call.StaticCallee() == fn {
+					bad = "the statement parser starts over after stepping over something that was not found to be '<%'"
+				}
+			}
 			continue
 		}
 		// events after that decision
